@@ -58,18 +58,6 @@ Theorem second_input_empty_witness :
   uncovered XAlg db_short F64 m_ab 5 4 = [TEmpty2].
 Proof. exact witness_second_empty. Qed.
 
-Theorem lincom_count_witness :
-  option_map (@length _) (impl_read XAlg db_ab F64 l_ab 0 1) = Some 2%nat /\
-  length (spec_window XAlg db_ab F64 l_ab 0 1) = 1%nat /\
-  uncovered XAlg db_ab F64 l_ab 0 1 = [TLincomRate].
-Proof. exact witness_lincom_inflation. Qed.
-
-Theorem raw_before_zero_witness :
-  impl_read XAlg db_ab F64 p_m5 0 2 = None /\
-  length (spec_window XAlg db_ab F64 p_m5 0 2) = 2%nat /\
-  uncovered XAlg db_ab F64 p_m5 0 2 = [TRawNeg].
-Proof. exact witness_raw_before_zero. Qed.
-
 Theorem raw_pad_witness :
   impl_read XAlg db_fo F64 a 2 4 =
     Some [XV 0; XV 0; XV 4607182418800017408; XV 4611686018427387904] /\
